@@ -25,6 +25,6 @@ for pid in props:
                                 level_claimed=dict(category=r['level'], text=t['text'], design_ref=t['design_ref']),
                                 level_note=t['note'], technique=r['technique']))
     else:
-        m['not_applicable'].append(dict(property_id=pid, reason=T['not_applicable'][pid]))
+        m['not_applicable'].append(dict(property_id=pid, reason=T['not_applicable'].get(pid, 'not claimed in this revision: the static engine that decides it (DESIGN.md §5 %s) is not finished; it is not replaced by another technique' % pid)))
 json.dump(m, open('/verif/MANIFEST.json', 'w'), indent=1)
 print('MANIFEST: %d checks, %d not applicable' % (len(m['checks']), len(m['not_applicable'])))
